@@ -5,7 +5,49 @@ use super::structs::*;
 use super::Ctx;
 use crate::script::ScriptBH;
 
+/// Bloom unions whose other operand holds one or two elements in a tiny filter (few set bits,
+/// probe positions often coincide): the union must still transfer them.
+pub fn bloom_sparse_unions(ctx: &mut Ctx, ncases: u64) {
+    for _ in 0..ncases {
+        ctx.case("bloom.sparse-union");
+        let bh = ctx.rand_hasher();
+        ctx.hasher(bh);
+        let m = ctx.rng.range(4, 40);
+        let k = ctx.rng.range(2, 8);
+        for id in 1..=3 {
+            ctx.op(format!("bloom.new {} {} {}", id, m, k));
+        }
+        let na = ctx.rng.below(4);
+        let mut a_keys = vec![];
+        for _ in 0..na {
+            let x = ctx.rng.below(50);
+            a_keys.push(x);
+            ctx.op(format!("bloom.insert 1 {}", x));
+            ctx.op(format!("bloom.insert 3 {}", x));
+        }
+        let nb = ctx.rng.range(1, 2);
+        let mut b_keys = vec![];
+        for _ in 0..nb {
+            let x = ctx.rng.below(50);
+            b_keys.push(x);
+            ctx.op(format!("bloom.insert 2 {}", x));
+            ctx.op(format!("bloom.insert 3 {}", x));
+        }
+        ctx.op("bloom.len 2".into());
+        ctx.op("bloom.union 1 2".into());
+        for x in a_keys.iter().chain(b_keys.iter()) {
+            ctx.op(format!("bloom.query 1 {}", x));
+        }
+        for x in 0..50 {
+            ctx.op(format!("both bloom.query 1 3 {}", x));
+        }
+        ctx.op("both bloom.len 1 3".into());
+        ctx.op("both bloom.empty 1 3".into());
+    }
+}
+
 pub fn gen_c01(ctx: &mut Ctx) {
+    bloom_sparse_unions(ctx, 60 * ctx.tier_scale);
     for _ in 0..(12 * ctx.tier_scale) {
         ctx.case("bloom");
         bloom_history(ctx, 150);
@@ -126,6 +168,7 @@ fn stream(ctx: &mut Ctx, univ: &[u64], n: u64) -> Vec<u64> {
 
 pub fn gen_c06(ctx: &mut Ctx) {
     gen_c06_cuckoo_loaded(ctx, 40 * ctx.tier_scale);
+    bloom_sparse_unions(ctx, 60 * ctx.tier_scale);
     for round in 0..(16 * ctx.tier_scale) {
         for f in FAMS {
             ctx.case(&format!("c06.{}", f.name));
@@ -446,7 +489,21 @@ pub fn res_extreme_sweep(ctx: &mut Ctx) {
     }
 }
 
+/// enormous k: the stream never leaves the fill phase, and 4 * k must not overflow
+pub fn res_huge_k(ctx: &mut Ctx) {
+    for k in [1u64 << 62, (1u64 << 62) + 1, u64::MAX / 4 + 1, u64::MAX] {
+        ctx.case("res.hugek");
+        ctx.op(format!("res.new 1 {} 5", k));
+        for i in 0..6 {
+            ctx.op(format!("res.add 1 {}", i));
+        }
+        ctx.op("res.get 1".into());
+        ctx.op("res.empty 1".into());
+    }
+}
+
 pub fn gen_c18(ctx: &mut Ctx) {
+    res_huge_k(ctx);
     for _ in 0..(120 * ctx.tier_scale) {
         ctx.case("res");
         res_history(ctx);
@@ -461,7 +518,59 @@ pub fn gen_c09(ctx: &mut Ctx) {
     }
 }
 
+/// collision-free sketches, tiny k, bursty streams over a tiny alphabet: elements are incremented
+/// while held, evicted by a newcomer, and come back — the exact top-k clause (E = 0) applies
+pub fn heap_bursty(ctx: &mut Ctx, ncases: u64) {
+    for _ in 0..ncases {
+        ctx.case("heap.bursty");
+        let k = ctx.rng.range(1, 3);
+        let (w, d) = (512u64, 4u64);
+        ctx.op(format!("heap.new 1 {} {} {}", k, w, d));
+        let alpha = k + ctx.rng.range(1, 3);
+        let mut steps = 0;
+        while steps < 60 {
+            let id = ctx.rng.below(alpha);
+            let burst = ctx.rng.range(1, 6);
+            let cols: Vec<String> = crate::exec::heap_cols(w as usize, d as usize, id).iter().map(|c| c.to_string()).collect();
+            for _ in 0..burst {
+                ctx.op(format!("heap.add 1 {} {} {}", id, id, cols.join(" ")));
+                ctx.op("heap.iter 1".into());
+                steps += 1;
+            }
+        }
+    }
+}
+
+/// small multi-row sketches, a few established heavy elements, then many first-seen newcomers:
+/// a newcomer that shares only some of its cells with a heavy element must not enter with that
+/// element's count
+pub fn heap_newcomers(ctx: &mut Ctx, ncases: u64) {
+    for _ in 0..ncases {
+        ctx.case("heap.newcomers");
+        let k = ctx.rng.range(1, 3);
+        let (w, d) = (ctx.rng.range(4, 24), ctx.rng.range(2, 4));
+        ctx.op(format!("heap.new 1 {} {} {}", k, w, d));
+        let add = |ctx: &mut Ctx, id: u64| {
+            let cols: Vec<String> = crate::exec::heap_cols(w as usize, d as usize, id).iter().map(|c| c.to_string()).collect();
+            ctx.op(format!("heap.add 1 {} {} {}", id, id, cols.join(" ")));
+            ctx.op("heap.iter 1".into());
+        };
+        let nheavy = k + 1;
+        for h in 0..nheavy {
+            for _ in 0..(4 + 5 * (nheavy - h)) {
+                add(ctx, h);
+            }
+        }
+        let base = 1000 + ctx.rng.below(1000);
+        for j in 0..30 {
+            add(ctx, base + j);
+        }
+    }
+}
+
 pub fn gen_c10(ctx: &mut Ctx) {
+    heap_bursty(ctx, 60 * ctx.tier_scale);
+    heap_newcomers(ctx, 60 * ctx.tier_scale);
     for _ in 0..(80 * ctx.tier_scale) {
         ctx.case("heap");
         heap_history(ctx, 120);
@@ -518,12 +627,14 @@ pub fn gen_c19(ctx: &mut Ctx) {
             ctx.op(format!("{}.clear 1", f.name));
             observe_both(ctx, f, 1, 2, &keys.univ);
             // a single element after clear: not empty any more (also when its probe positions coincide)
-            let k1 = keys.pick(ctx);
-            ctx.op(format!("both {} 1 2 {}", f.add, k1));
-            ctx.op(format!("both {}.empty 1 2", f.name));
-            ctx.op(format!("{}.clear 1", f.name));
-            ctx.op(format!("{}.clear 2", f.name));
-            ctx.op(format!("both {}.empty 1 2", f.name));
+            for _ in 0..12 {
+                let k1 = keys.pick(ctx);
+                ctx.op(format!("both {} 1 2 {}", f.add, k1));
+                ctx.op(format!("both {}.empty 1 2", f.name));
+                ctx.op(format!("{}.clear 1", f.name));
+                ctx.op(format!("{}.clear 2", f.name));
+                ctx.op(format!("both {}.empty 1 2", f.name));
+            }
             // cuckoo: keep the continuation below `bucketsize` inserts so that no eviction
             // (hence no RNG draw, whose stream position legitimately differs) is involved
             let ncont = if f.name == "cuckoo" { cfg[0] - 1 } else { ctx.rng.below(2 * cap.min(30) + 2) };
@@ -598,9 +709,11 @@ pub fn gen_c19(ctx: &mut Ctx) {
         ctx.op("both res.empty 1 2".into());
         // lossy counter
         ctx.case("c19.lossy");
-        let w = ctx.rng.range(1, 12);
+        // includes widths whose reciprocal does not round-trip through 1/(1/w) (49, 98, 103, 107, ...)
+        let w = if ctx.rng.chance(1, 2) { ctx.rng.range(1, 12) } else { *ctx.rng.pick(&[49u64, 98, 103, 107, 196, 197, 206, 214, 237, 239, 249, 253, 100, 64]) };
         ctx.op(format!("lossy.neww 1 {}", w));
         ctx.op(format!("lossy.neww 2 {}", w));
+        ctx.op("both lossy.getters 1 2".into());
         for _ in 0..ctx.rng.clone().below(200) {
             ctx.op(format!("lossy.add 1 {}", ctx.rng.clone().below(9)));
         }
@@ -611,9 +724,10 @@ pub fn gen_c19(ctx: &mut Ctx) {
         ctx.op("both lossy.n 3 4".into());
         ctx.op("lossy.clear 1".into());
         ctx.op("both lossy.n 1 2".into());
+        ctx.op("both lossy.getters 1 2".into());
         ctx.op(format!("both lossy.query 1 2 {}", fx(0.0)));
-        for _ in 0..ctx.rng.clone().below(120) {
-            let k = ctx.rng.below(7);
+        for _ in 0..(ctx.rng.clone().below(120) + 2 * w) {
+            let k = ctx.rng.below(7 + w);
             ctx.op(format!("both lossy.add 1 2 {}", k));
             if ctx.rng.chance(1, 5) {
                 ctx.op(format!("both lossy.query 1 2 {}", fx(ctx.rng.clone().below(9) as f64 / 8.0)));
@@ -680,15 +794,33 @@ pub fn gen_c20(ctx: &mut Ctx) {
         ctx.op("hll.merge 1 2".into());
         ctx.op("hll.regs 1".into());
     }
+    // systematic shapes: register counts k * 2^b for k != 1, b at and beyond the legal range
+    for b in [0u64, 3, 4, 5, 6, 7, 19, 63, 64, 65, 128] {
+        for k in [0u64, 2, 3, 4, 5, 7] {
+            ctx.case("c20.shapes");
+            let len = if b <= 7 { k << b } else { k * 16 };
+            let regs: Vec<String> = (0..len).map(|i| (i % 5).to_string()).collect();
+            let order = ctx.rng.below(3);
+            let mut fields = vec![format!("R:{}", regs.join(",")), format!("B:{}", b), "H:1,0,64,0".to_string()];
+            fields.rotate_left(order as usize);
+            let a = ctx.op(format!("hll.deser 1 {}", fields.join(" ")));
+            ctx.stat(&format!("c20.deser.{}", a), 1);
+            if a == "ok" {
+                ctx.op("hll.regs 1".into());
+                ctx.op("hll.addh 1 12345".into());
+                ctx.op("hll.count 1".into());
+            }
+        }
+    }
     for _ in 0..(150 * ctx.tier_scale) {
         ctx.case("c20.malformed");
         // b and the registers length varied independently, plus omissions / duplicates / unknown / wrong types
         let consistent = ctx.rng.chance(1, 3);
-        let b = if consistent { ctx.rng.range(4, 9) } else { *ctx.rng.pick(&[0u64, 1, 3, 4, 5, 6, 7, 8, 18, 19, 20, 63, 64, 99, u64::MAX]) };
+        let b = if consistent { ctx.rng.range(4, 9) } else { *ctx.rng.pick(&[0u64, 1, 3, 4, 4, 5, 5, 6, 7, 8, 18, 19, 20, 63, 64, 65, 99, 256, u64::MAX]) };
         let len = if consistent {
             1u64 << b
         } else {
-            match ctx.rng.below(8) {
+            match ctx.rng.below(10) {
                 0 => 0,
                 1 => 1,
                 2 => 15,
@@ -696,6 +828,7 @@ pub fn gen_c20(ctx: &mut Ctx) {
                 4 => 17,
                 5 => 32,
                 6 => if b <= 10 { 1u64 << b } else { 64 },
+                7 => if b <= 7 { (2 * ctx.rng.range(1, 4) + 1) << b } else { 48 }, // odd multiple of 2^b
                 _ => ctx.rng.below(300),
             }
         };
